@@ -688,7 +688,7 @@ func sameKeyIdentity(a, b Value) bool {
 
 func (it *Interp) execGo(fr *frame, x *ssa.Go) {
 	if !it.M.allowGo {
-		it.abort("goroutine started on a chain-side path at %s", it.posString(x.Pos()))
+		it.nondetSource("go statement at " + it.posString(x.Pos()))
 	}
 	d := it.prepareDefer(fr, &x.Call)
 	it.M.goQueue = append(it.M.goQueue, d)
